@@ -392,12 +392,15 @@ theorem readRecords_step {H : Nat × Nat → Prop} {opq : Nat → Rd Bytes} {buf
     | false => simpa using hrest
     | true =>
       simp only [Bool.not_true, Bool.false_eq_true, ↓reduceIte]
-      have hpv : r.rdata.proved = true := by
+      have hpv : r.rdata.proved = true ∧ r.rdata.typeOK r.rtype := by
         rcases hr.data with h1 | h1
         · exfalso; rw [h1] at hu; simp [RData.isUpdate] at hu
-        · exact h1.1
-      cases hdd : r.rdata <;> rw [hdd] at hpv <;> simp [RData.proved] at hpv <;>
-        simp only [Record.fq, hdd, RData.fq] <;> (simp only [Record.fq, hdd, RData.fq] at hrest; exact hrest)
+        · exact ⟨h1.1, h1.2.1⟩
+      obtain ⟨hpv, hty⟩ := hpv
+      cases hdd : r.rdata <;> rw [hdd] at hpv hty <;> simp [RData.proved] at hpv <;>
+        first
+        | (exfalso; exact hs2 hty.1)
+        | (simp only [Record.fq, hdd, RData.fq]; simp only [Record.fq, hdd, RData.fq] at hrest; exact hrest)
 
 /-- the record loop over a list of records' layouts, followed by whatever the remaining count reads -/
 theorem reads_records_then {H : Nat × Nat → Prop} {opq : Nat → Rd Bytes} {buf : Bytes} (isAdd : Bool) (op : Nat) :
